@@ -865,7 +865,7 @@ MAIN.update({
         mc=dict(quick=[mc("MC_Batch.cfg", "batch_liveness")],
                 thorough=[mc("MC_Batch.cfg", "batch_liveness"), mc("MC_Batch.cfg", "batch_liveness_cap1_2", {"Caps": "{1, 2}", "MaxBuilds": "2", "Ids": "{1, 2, 3}"}, timeout=900),
                           mc("MC_Batch.cfg", "sens_batch_as_coded", {"AsCodedBatch": "TRUE"}, expect=True)]),
-        traces=dict(quick=[dict(family="mem", jobs=8, count=3, threads=[1, 1, 2, 1])], thorough=[dict(family="mem", jobs=8, count=12, threads=[1, 1, 2, 4])]),
+        traces=dict(quick=[dict(family="mem", jobs=8, count=2, threads=[1, 1, 2, 1])], thorough=[dict(family="mem", jobs=8, count=12, threads=[1, 1, 2, 4])]),
         distinct=distinct_forests, sample_event="Build",
         also=lambda prop, conj: prop in ("C01", "C02"),
     ),
